@@ -27,7 +27,7 @@ SIGNALS = {REPH: ["R2g", "R3g", "R1fs"], NONR: ["R1g", "R4g", "R2fs"], SDC: ["R3
 LEVELS = ["off", "signals", "processes", "types", "pathways"]
 DTYPES = {"pathways": PTYPES, "types": PTYPES, "processes": list(PROCESSES), "signals": list(SIGNALS), "off": [TOTL]}
 EDGES = {4: {3, 2, 1, 0}, 3: {2, 1, 0}, 2: {0}, 1: {0}, 0: set()}
-TAGS = ["a", "b", "c", 1, 2, "p5"]
+TAGS = ["a", "b", "c", 1, 2, "p5", 0, ""]      # 0 and "" are legal tags that are falsy
 
 
 def proc_of(t):
